@@ -299,3 +299,17 @@ func SortedKeys[V any](m map[string]V) []string {
 	sort.Strings(ks)
 	return ks
 }
+
+// Current records the case about to be run (when VERIF_CURRENT_CASE names a file), so that a case which
+// kills the process (fatal stack overflow, runtime throw) can still be reported as the failing input.
+func Current(v any) {
+	path := os.Getenv("VERIF_CURRENT_CASE")
+	if path == "" {
+		return
+	}
+	b, err := json.Marshal(v)
+	if err != nil {
+		b = []byte(fmt.Sprintf("%q", fmt.Sprint(v)))
+	}
+	_ = os.WriteFile(path, b, 0o644)
+}
